@@ -80,3 +80,4 @@ package compile
 //@   modifies o.OpArg
 //@   ensures target: old(o.pos.p) <= 4294967289 ==> int(o.OpArg.Arg) == int(o.Dest.pos.p) - (int(o.pos.p) + ite(old(o.OpArg.Arg) <= 65535, 3, 6))
 //@   ensures fits: (o.OpArg.Arg <= 65535) == (old(o.OpArg.Arg) <= 65535)
+//@   panics back: int(o.Dest.pos.p) < int(uint32(int(o.pos.p) + ite(o.OpArg.Arg <= 65535, 3, 6))) || ((int(o.Dest.pos.p) - int(uint32(int(o.pos.p) + ite(o.OpArg.Arg <= 65535, 3, 6))) <= 65535) != (o.OpArg.Arg <= 65535))
